@@ -9,7 +9,7 @@ from vx.core import Scenario
 
 META = dict(
     explanation="Oracle: count_i = #{e : edge_i <= e < edge_i+1}, underflow = #{e < edge_0}, overflow = #{e >= edge_last}.",
-    bounds=dict(quick="<= 3 entries, <= 2 bins, <= 2 batches", thorough="<= 4 entries, <= 3 bins, <= 3 batches"),
+    bounds=dict(quick="<= 3 entries, <= 2 bins, <= 2 batches", thorough="<= 4 entries with <= 2 bins, <= 3 entries with 3 bins, <= 3 batches"),
     outside=["NaN / infinite entries", "more entries or bins than the bound (the merge loop is uniform in both, not proved)", "weights"],
     assumptions=["bin edges ascending (non-strict: repeated edges allowed)", "entries are finite reals"],
     exhaustive=dict(quick=False, thorough=False),
@@ -210,7 +210,7 @@ def scenarios(tier, seed):
         sizes = [(2, 2), (3, 2), (3, 1)]
         maxparts = 2
     else:
-        sizes = [(2, 2), (3, 2), (3, 3), (4, 2), (4, 3)]
+        sizes = [(2, 2), (3, 2), (3, 3), (4, 2)]  # (4 entries, 3 bins): 625 bin assignments per scenario x 70 scenarios -- beyond the time budget
         maxparts = 3
     orders = [
         ("data", "underflow", "overflow", "n_entries"),
